@@ -176,6 +176,20 @@ def gen_world(rnd, natoms, nnodes):
     return {"targets": names[:nt], "nodes": nodes}
 
 
+POS_KINDS = range(37, 45)      # positive-polarity-only kinds of harness/cmd/acvh/logic.go (vacuous / mixed value sets)
+
+
+def negation_free(ast):
+    k = ast["k"]
+    if k in ("not", "ite", "itee"):
+        return False
+    if k == "atom":
+        return True
+    if k == "q":
+        return negation_free(ast["x"])
+    return all(negation_free(x) for x in ast["xs"])
+
+
 def run(tier):
     t0 = time.time()
     V = vlib.Verdict("C01")
@@ -216,6 +230,32 @@ def run(tier):
                 asts[fid] = c["ast"]
             for si, w in enumerate(slices):
                 hcases.append({"id": "%s/b%05d/s%d" % (sname, b, si), "world": w, "kinds": kinds, "formulas": fs,
+                               "spell": rnd.randrange(4)})
+    # the same formulas again with per-value atoms on properties holding no value / several values - only formulas in
+    # which no atom is ever negated (no not / if): there an atom's truth is all that matters and it is well defined
+    posf = [fid for fid in sorted(expect) if negation_free(asts[fid])]
+    rnd.shuffle(posf)
+    posf = posf[: (400 if quick else 6000)]
+    by_scope = {}
+    for fid in posf:
+        by_scope.setdefault(fid.rsplit("_", 1)[0], []).append(fid)
+    scope_world = {sname: (world, nslices) for sname, (cases, world, _, _, _), sample, nslices in scopes}
+    npos = 0
+    for sname, fids in sorted(by_scope.items()):
+        world, nslices = scope_world[sname]
+        natoms = len(next(iter(world["nodes"].values()))["val"])
+        slices = slice_world(world, nslices)
+        for b in range(0, len(fids), 10):
+            kinds = rnd.sample(list(POS_KINDS), natoms)
+            fs = []
+            for fid in fids[b:b + 10]:
+                pf = fid + "+pos"
+                fs.append({"fid": pf, "ast": asts[fid]})
+                expect[pf] = expect[fid]
+                asts[pf] = asts[fid]
+                npos += 1
+            for si, w in enumerate(slices):
+                hcases.append({"id": "%s+pos/b%05d/s%d" % (sname, b, si), "world": w, "kinds": kinds, "formulas": fs,
                                "spell": rnd.randrange(4)})
     obs = vlib.run_harness("logic", hcases, "c01_a", timeout=3000)
     byid = {c["id"]: c for c in hcases}
